@@ -47,6 +47,8 @@ def run(ctx: Ctx, lines=LINES):
         jobs_rand.append((ctx.rng.randrange(1 << 30), 40, i % 2 == 0, "scan", lines))
     for i in range(4 if ctx.quick else 60):
         jobs_rand.append((ctx.rng.randrange(1 << 30), 100, False, "alias_nested", lines))
+    for i in range(4 if ctx.quick else 80):
+        jobs_rand.append((ctx.rng.randrange(1 << 30), 50, i % 3 != 2, "limited", lines))
     n_large = 160 if ctx.quick else 6000
     for i in range(n_large // 20):
         jobs_rand.append((ctx.rng.randrange(1 << 30), 20, i % 3 != 2, "large", lines))
@@ -68,7 +70,7 @@ def run(ctx: Ctx, lines=LINES):
     ctx.rule = ("three 5-node trees x " + ("all 4096" if not ctx.quick else "a seeded 64-subset of the 4096") +
                 " import relations from the three leaves x every strict (pairwise unrelated) subject/object split (both filter kinds) x 12 shapes + 2 aliases; "
                 "random trees <=13 nodes (collision-free and adversarial component names; 1/3 with related filters) through the graph constructor, "
-                "real scanned file trees, 'anything' rules whose named subjects include a package together with its own sub modules (3-6 subjects, names of mixed length), and large trees (up to 45 modules, 7 levels, numbered / non-ASCII / very long names, up to 6 subjects x 6 objects, 30 imports); each rule evaluated by the real Rule API and by the extracted model; strict rules also against the documented-semantics oracle. "
+                "real scanned file trees, level-limited architectures (oracle on the quotient graph), 'anything' rules whose named subjects include a package together with its own sub modules (3-6 subjects, names of mixed length), and large trees (up to 45 modules, 7 levels, numbered / non-ASCII / very long names, up to 6 subjects x 6 objects, 30 imports); each rule evaluated by the real Rule API and by the extracted model; strict rules also against the documented-semantics oracle. "
                 "additionally the three public graph queries (get_dependencies and the two 'other' queries) on random graphs (some level-limited) x random filter lists (related or not, unknown names now and then): "
                 "real result maps vs the comprehension model (fn 11-13) vs the worklist model (fn 31-33), as sets of imports per key. "
                 "non-trivial = a graph on which the 14 shapes do not all give the same verdict")
